@@ -34,7 +34,10 @@ MODULE, CFG = "TokensTrace", "TokensTrace.cfg"
 
 
 def gen(ctx, mode, simulate=None, maxlen=3, na=15, seed=None, timeout=600, workers=1):
-    cfg = el.cfg_with("Gen_Tokens.cfg", Mode=f'"{mode}"', MaxLen=maxlen, NA=na)
+    # C19-a repaired (fixed: line of known_findings.json, or C19_ASSUME_FIXED=C19-a): the overlapping snippet chains are
+    # steered like the others (by characters), no longer by bytes
+    fixed = "C19-a" in os.environ.get("C19_ASSUME_FIXED", "") or any("C19-a" in x for x in vlib.load_known().get("fixed", []))
+    cfg = el.cfg_with("Gen_Tokens.cfg", Mode=f'"{mode}"', MaxLen=maxlen, NA=na, SteerOverlapBytes="FALSE" if fixed else "TRUE")
     name = f"Gen_Tokens_{ctx.prop}_{os.getpid()}.cfg"
     path = os.path.join(vlib.SPEC, name)
     open(path, "w").write(cfg)
@@ -206,12 +209,33 @@ def big(ctx, chains):
 
 
 def known_finding_runs(ctx, chains):
-    """F12: a token longer than max_num_chars comes back as a fragment longer than the limit"""
+    """F12: a token longer than max_num_chars comes back as a fragment longer than the limit.
+    C19-a: with overlapping tokens (n-grams 1..3: a, ab, abc, b, ...) the end of the fragment moves BACK after such a
+    token (FragmentCandidate::try_add_token sets stop_offset = token.offset_to): the highlighted range of the long token
+    lies outside the fragment and Snippet::to_html panics.  Same precondition as F12 (a matched token longer than
+    max_num_chars); once stop_offset is kept monotonic these cases are plain F12 cases."""
     cases = [{"sn": {"text": [97, 98, 128512], "chain": 6, "terms": [[97, 98]], "max": 1}},
              {"sn": {"text": [97, 32, 20013, 20013, 20013, 32, 97], "chain": 18, "terms": [[20013, 20013, 20013]], "max": 2}}]
     ev = drive(ctx, chains, cases, "kf_f12")
     ok, bad = judge(ctx, ev, chains, "kf_f12", kf_tag="snippet-longer-than-max-num-chars")
     ctx.cov.setdefault("known_finding_runs", {})["F12 snippet longer than max_num_chars"] = {"reproduced": bad, "cases": len(cases)}
+    overlap = [{"sn": {"text": [97, 98, 99, 100], "chain": 41, "terms": [[97, 98, 99]], "max": 2}},
+               {"sn": {"text": [97, 98, 99, 100, 101, 102], "chain": 42, "terms": [[97, 98, 99, 100]], "max": 3}},
+               # (no more characters than max_num_chars, but more bytes: not an F12 case)
+               {"sn": {"text": [304, 304, 769, 60, 128512], "chain": 41, "terms": [[769, 60, 128512]], "max": 5}},
+               {"sn": {"text": [233, 66, 304, 233], "chain": 43, "terms": [[101, 98, 105, 775, 101]], "max": 5}}]
+    known = vlib.load_known()
+    if not (any(k.get("id") == "C19-a" for k in known.get("known", [])) or any("C19-a" in x for x in known.get("fixed", []))
+            or os.environ.get("C19_RUN_OVERLAP")):
+        # proposed finding, not recorded yet: the reproduction would be an unlisted violation
+        ctx.cov["known_finding_runs"]["C19-a highlight outside the fragment (overlapping tokens)"] = "skipped: C19-a neither recorded nor fixed in known_findings.json"
+        log("[kf] C19-a reproduction skipped (C19-a is neither a known nor a fixed finding in known_findings.json)")
+        return
+    ev = drive(ctx, chains, overlap, "kf_overlap")
+    tag = lambda run: "snippet-highlight-outside-fragment" if run[-1]["ev"] == "panic" else "snippet-longer-than-max-num-chars"
+    ok, bad = judge(ctx, ev, chains, "kf_overlap", kf_tag=tag)
+    ctx.cov["known_finding_runs"]["C19-a highlight outside the fragment (overlapping tokens)"] = {
+        "panics": sum(1 for e in ev if e["ev"] == "panic"), "rejected": bad, "cases": len(overlap)}
 
 
 def binding_selftest(ctx, chains, enum_ev, snip_ev, comp_ev):
